@@ -611,19 +611,167 @@ Proof.
   destruct ax as [m|m n].
   - destruct (is_int m); [apply U1; auto|].
     destruct m; try apply BC.
-    destruct p; cbn; auto; try (apply U1; auto; fail); try apply U3; try apply U2.
+    destruct p; cbn [fst]; auto; try (apply U1; auto; fail); try apply U3; try apply U2.
   - destruct (is_slice m).
     + destruct (is_slice n).
       * destruct (negb (is_open m) && is_open n); [apply U1; auto | apply BC].
-      * destruct p; cbn; auto. destruct (is_int n); auto.
+      * destruct p; cbn [fst]; auto; try (destruct (is_int n)); try (apply U1; exact I); try apply U2; try apply U3.
     + destruct (is_int m); [apply U1; auto|].
       destruct (is_slice n).
-      * destruct p; cbn; auto.
+      * destruct p; cbn [fst]; auto; try (apply U1; auto; fail); try apply U2; try apply U3.
       * destruct (is_int n).
-        -- destruct p; cbn; auto.
+        -- destruct p; cbn [fst]; auto.
            ++ apply upd_rows_Forall; auto. intros; now apply dset_wf.
            ++ apply upd_rows2_Forall; auto. intros; now apply dset_wf.
-        -- destruct p; cbn; auto.
+        -- destruct p; cbn [fst]; auto.
            ++ apply upd_rows2_Forall; auto. intros; now apply dset_wf.
            ++ apply upd_rows2_Forall; auto. intros; now apply dset_wf.
 Qed.
+
+(* ------------------------------------------------------------------ one operation, then every history *)
+Lemma store_wf_app s o : store_wf s -> owf o -> store_wf (s ++ [o]).
+Proof. intros. apply Forall_app; split; auto. Qed.
+Lemma store_wf_set s i o : store_wf s -> owf o -> store_wf (set_obj s i o).
+Proof. intros. now apply Forall_upd. Qed.
+Lemma with_vec_wf x v x' : vwf v -> with_vec x v = Ok x' -> owf x'.
+Proof. destruct x, v; cbn; intros Hv H; inversion H; subst; cbn; auto. Qed.
+Lemma with_rows_wf x l x' : Forall vwf l -> with_rows x l = Ok x' -> owf x'.
+Proof.
+  intros Hl H. destruct x; cbn in H; try discriminate.
+  - destruct (all_F l) eqn:E; inversion H; subst. cbn. eapply all_F_wf; eauto.
+  - destruct (all_B l); inversion H; subst. exact I.
+Qed.
+Lemma vec_of_obj_wf x v : owf x -> vec_of_obj x = Some v -> vwf v.
+Proof. destruct x; cbn; intros Hx H; inversion H; subst; cbn; auto. Qed.
+Lemma wf_neg_bits (b : bits) : wf (map (fun x : bool => if x then Some (-(1)) else None) b).
+Proof. apply wf_map_any. intros [|]; cbn; auto. lra. Qed.
+
+Ltac bindinv H :=
+  repeat match type of H with
+         | (do _ <- ?m; _) = Ok _ => let E := fresh "E" in destruct m eqn:E; cbn [bind] in H; [|discriminate H]
+         end.
+
+Lemma step_res_wf s o s' r : store_wf s -> step_res false s o = Ok (s', r) -> store_wf s'.
+Proof.
+  intros Hs H. destruct o; cbn [step_res] in H.
+  - (* OBin *)
+    bindinv H. okinv. apply store_wf_app; auto.
+    pose proof (getobj_wf _ _ _ Hs E) as Hx. pose proof (resolve_pwf _ _ _ Hs E0) as Hp.
+    destruct (vec_of_obj a0) eqn:V.
+    + eapply vector_bin_wf; [|exact Hp|exact E1]. eapply vec_of_obj_wf; eauto.
+    + eapply array_bin_wf; [|exact Hp|exact E1]. now apply rows_of_wf.
+  - (* OIBin *)
+    bindinv H.
+    pose proof (getobj_wf _ _ _ Hs E) as Hx. pose proof (resolve_pwf _ _ _ Hs E0) as Hp.
+    destruct (vec_of_obj a0) eqn:V.
+    + pose proof (vec_of_obj_wf _ _ Hx V) as Hv.
+      destruct (is_ro a0); [discriminate|].
+      assert (G : forall al p v' x', pwf p -> vec_ibin false o al v p = Ok v' -> with_vec a0 v' = Ok x' ->
+                                     store_wf (set_obj s i x')).
+      { intros al p v' x' Hp' Hi Hw. apply store_wf_set; auto. eapply with_vec_wf; [|exact Hw]. eapply vec_ibin_wf; eauto. }
+      destruct v as [c|b]; [|destruct o as [[]| |]; try discriminate];
+        (destruct a1 as [c1|b1|rows|rows|q isb|l isb|m isb];
+         try (destruct rows as [|r0 [|r1 rows]]); try discriminate;
+         bindinv H; okinv; eapply G; try eassumption; cbn; auto;
+         try (inversion Hp; subst; assumption)).
+    + bindinv H. okinv. apply store_wf_set; auto. eapply with_rows_wf; [|eassumption].
+      eapply array_ibin_wf; [|exact Hp|eassumption]. now apply rows_of_wf.
+  - (* ORBin *)
+    bindinv H. okinv. apply store_wf_app; auto.
+    pose proof (getobj_wf _ _ _ Hs E) as Hx.
+    assert (Hl : Forall vwf a1).
+    { eapply mapM_Forall; [|apply (rows_of_wf _ Hx)|exact E0]. intros v y Hv Hy.
+      destruct o, v as [c|b]; cbn in Hy;
+        try (eapply vec_bin_wf; [exact Hv| |exact Hy]; exact I).
+      - apply okF_inv in Hy as (c' & Hc & ->). cbn. eapply rsub_scalar_wf; eauto.
+      - apply okF_inv in Hy as (c' & Hc & ->). cbn. eapply add_scalar_wf; [|exact Hc]. apply wf_neg_bits.
+      - apply okF_inv in Hy as (c' & Hc & ->). cbn. eapply rtruediv_scalar_wf; eauto.
+      - apply okF_inv in Hy as (c' & Hc & ->). cbn.
+        destruct (mapM _ b); cbn in Hc; inversion Hc; subst. apply (wf_map_nz (fun x => x)). }
+    destruct (vec_of_obj a0).
+    + destruct a1 as [|v [|v2 a1]]; try discriminate. okinv. apply obj_of_vec_wf. now inversion Hl.
+    + eapply obj_of_rows_wf; eauto.
+  - (* ONeg *)
+    bindinv H. okinv. apply store_wf_app; auto. pose proof (getobj_wf _ _ _ Hs E) as Hx.
+    destruct a; cbn in *.
+    + now apply neg_cells_wf.
+    + apply wf_neg_bits.
+    + clear -Hx. induction Hx; cbn; constructor; auto. now apply neg_cells_wf.
+    + clear. induction rows; cbn; constructor; auto. apply wf_neg_bits.
+  - (* OAbs *)
+    bindinv H. okinv. apply store_wf_app; auto. pose proof (getobj_wf _ _ _ Hs E) as Hx.
+    destruct a; cbn in *; auto.
+    + now apply abs_cells_wf.
+    + clear -Hx. induction Hx; cbn; constructor; auto. now apply abs_cells_wf.
+  - (* OInvert *)
+    bindinv H. destruct a; try discriminate; okinv; apply store_wf_app; auto; exact I.
+  - (* OCopy *)
+    bindinv H. okinv. apply store_wf_app; auto. pose proof (getobj_wf _ _ _ Hs E) as Hx. destruct a; cbn in *; auto.
+  - (* OClear *)
+    bindinv H. destruct a; try discriminate.
+    + destruct ro; try discriminate. okinv. apply store_wf_set; auto. cbn. apply wf_empty.
+    + okinv. apply store_wf_set; auto. cbn. clear. induction rows; cbn; constructor; auto. apply wf_empty.
+    + okinv. apply store_wf_set; auto. exact I.
+  - (* OSetRO *)
+    bindinv H. pose proof (getobj_wf _ _ _ Hs E) as Hx. destruct a; try discriminate; okinv; apply store_wf_set; auto.
+  - (* OToArray *)
+    bindinv H. okinv. auto.
+  - (* OGet *)
+    bindinv H. destruct (vec_of_obj a); try discriminate. okinv. auto.
+  - (* OSet *)
+    bindinv H.
+    pose proof (getobj_wf _ _ _ Hs E) as Hx. pose proof (resolve_pwf _ _ _ Hs E0) as Hp0.
+    pose proof (reduce_obj_pwf _ Hp0) as Hp.
+    destruct a; try discriminate.
+    + destruct ro; try discriminate.
+      destruct (alias_of v i && (is_open ix || negb (len1 c))).
+      * destruct (is_open ix); [okinv; auto|]. destruct (is_int ix); try discriminate.
+        bindinv H. okinv. apply store_wf_set; auto. cbn. eapply set_zip_lazy_wf; eauto.
+      * destruct (is_open ix && vd2 (reduce_obj a0)); try discriminate.
+        bindinv H. okinv. apply store_wf_set; auto. cbn. eapply vecF_set_wf; eauto.
+    + destruct (alias_of v i && (is_open ix || negb (len1 b))).
+      * destruct (is_open ix); [okinv; auto|]. destruct (is_int ix); try discriminate.
+        bindinv H. okinv. apply store_wf_set; auto. exact I.
+      * destruct (is_open ix && vd2 (reduce_obj a0)); try discriminate.
+        bindinv H. okinv. apply store_wf_set; auto. exact I.
+  - (* ORed *)
+    bindinv H. pose proof (getobj_wf _ _ _ Hs E) as Hx.
+    match type of H with context [match ?out with RErr _ => _ | _ => _ end] => destruct out eqn:O end;
+      try discriminate; okinv; auto.
+    apply store_wf_app; auto.
+    destruct a; cbn in Hx.
+    + destruct axis as [[|k]|]; try discriminate; eapply red_vecF_new; eauto.
+    + destruct axis as [[|k]|]; try discriminate; eapply red_vecB_new; eauto.
+    + eapply red_arrF_new; eauto.
+    + unfold red_arrB in O. destruct r0, axis as [[|[|k]]|], keep; cbn in O; inversion O; subst; exact I.
+Qed.
+
+Lemma xstep_res_wf s o s' r : store_wf s -> xstep_res false s o = Ok (s', r) -> store_wf s'.
+Proof.
+  intros Hs H. destruct o; cbn [xstep_res] in H.
+  - eapply step_res_wf; eauto.
+  - bindinv H. destruct a; try discriminate.
+    destruct (arrF_get rows ax); try discriminate; try (okinv; auto; fail).
+    bindinv H. okinv. auto.
+  - bindinv H. pose proof (getobj_wf _ _ _ Hs E) as Hx. pose proof (resolve_pwf _ _ _ Hs E0) as Hp0.
+    destruct a; try discriminate.
+    pose proof (arrF_set_wf rows ro ax (reduce_obj a0) Hx (reduce_obj_pwf _ Hp0)) as Hw.
+    destruct (arrF_set false rows ro ax (reduce_obj a0)) as [rows' e]. okinv.
+    apply store_wf_set; auto.
+Qed.
+Lemma xstep_wf s o : store_wf s -> store_wf (fst (xstep false s o)).
+Proof.
+  intros Hs. unfold xstep. destruct (xstep_res false s o) as [[s' r]|e] eqn:E; cbn; auto.
+  eapply xstep_res_wf; eauto.
+Qed.
+Lemma run_wf ops : forall s, store_wf s -> store_wf (fst (run false s ops)).
+Proof.
+  induction ops as [|o ops IH]; intros s Hs; cbn; auto.
+  pose proof (xstep_wf s o Hs) as H1. destruct (xstep false s o) as [s' r]. cbn in H1.
+  destruct (crashed r); cbn; auto.
+  specialize (IH s' H1). destruct (run false s' ops). cbn in *. exact IH.
+Qed.
+Lemma mk_wf : forall l ro, owf (mkV l ro).
+Proof. intros. cbn. apply wf_of_dense. Qed.
+Lemma mkA_wf : forall m, owf (mkA m).
+Proof. intros. cbn. induction m; cbn; constructor; auto. apply wf_of_dense. Qed.
